@@ -3,7 +3,7 @@
 generated ones: the statement is printed by Coq from the proved lemma and closed with `exact @lemma`. Idempotent."""
 import subprocess, re, os, sys
 COQ = os.path.join(os.path.dirname(os.path.dirname(os.path.abspath(__file__))), "coq")
-EXTRA = {"C04": ["Ctpg.Model.Driver", "Ctpg.Proofs.UtilsDriverLink"], "C01": ["Ctpg.Model.LRGen", "Ctpg.Model.LRGenWords", "Ctpg.Proofs.LRGenWordsRefine", "Ctpg.Proofs.GenWf", "Ctpg.Proofs.GenClosure", "Ctpg.Proofs.KernelWordsRefine", "Ctpg.Proofs.ClosureWordsRefine"]}
+EXTRA = {"C03": ["Ctpg.Model.Dfa", "Ctpg.Model.Containers", "Ctpg.Proofs.LRGenWordsRefine", "Ctpg.Proofs.CharsetWordsRefine"], "C04": ["Ctpg.Model.Driver", "Ctpg.Proofs.UtilsDriverLink"], "C01": ["Ctpg.Model.LRGen", "Ctpg.Model.LRGenWords", "Ctpg.Proofs.LRGenWordsRefine", "Ctpg.Proofs.GenWf", "Ctpg.Proofs.GenClosure", "Ctpg.Proofs.KernelWordsRefine", "Ctpg.Proofs.ClosureWordsRefine"]}
 BASE = ["Ctpg.Base.Prelude", "Ctpg.Model.Grammar", "Ctpg.Model.Containers", "Ctpg.Model.Utils", "Ctpg.Proofs.ContainersBits", "Ctpg.Proofs.ContainersVec", "Ctpg.Proofs.ContainersSort", "Ctpg.Proofs.UtilsCorrect"]
 def coq_type(imports, lemma):
     src = "".join(f"Require Import {m}.\n" for m in imports) + "Set Printing Width 100000.\nSet Printing Depth 100000.\n" + f"Check @{lemma}.\n"
@@ -34,6 +34,10 @@ ADD = {
          ("C01_a_proper_prefix_is_not_the_same_name", "str_equal_proper_prefix", "in particular a declared name that is a proper prefix of the looked-up name is not a match"),
          ("C01_symbol_lookup_is_the_models_find_str", "find_str_c_spec", "utils::find_str over a table of C strings = Grammar.find_str on identifiers: the first equal name, 'string not found' otherwise")],
  "C03": [("C03_character_sets_are_sets_of_bytes", "cb_run_refines", "char_subset is a cbitset<256>: for EVERY sequence of operations (set, ranges as repeated set, whole-set flip for '.' and inverted sets) test(j) is membership in the described set of bytes"),
+         ("C03_inverted_sets_on_words_are_the_models", "w_cs_flip_rel", "LINK (character sets): char_subset::flip() on the four 64-bit words is the model's cs_flip ('.' and inverted sets), for every set"),
+         ("C03_ranges_on_words_are_the_models", "w_cs_add_range_rel", "add_range (the loop of set(i) for i = c1..c2) on words is the model's cs_add_range, also for an empty range c1 > c2"),
+         ("C03_set_membership_on_words_is_the_models", "w_cs_test_rel", "test(c) on words is the model's membership"),
+         ("C03_inverted_set_example_on_words", "ex_neg_abc_tests", "[^a-c] computed on words: 0xC8 and 0xFF are members, index 256 throws"),
          ("C03_whole_set_flip_is_exact_for_256_bits", "cb_run_clean_multiple_of_64", "256 is a multiple of 64: no padding bits exist, flip() and set() are exact"),
          ("C03_hex_escapes_decode_to_their_value", "hex_digits_to_char_spec", "regex::hex_digits_to_char on two hex digits is 16 * v1 + v2 (as a byte, also for values >= 0x80 where char is negative)"),
          ("C03_hex_digit_class", "is_hex_digit_spec", "utils::is_hex_digit on signed chars = the three ASCII ranges"),
